@@ -21,6 +21,39 @@ func main() {
 		cmdVerify(os.Args[2:])
 	case "check":
 		cmdCheck(os.Args[2:])
+	case "params":
+		// govc params <pkgs>: contract key -> SSA parameter names (receiver first), for tools/add_params.py
+		eng := NewEngine("/repo")
+		if err := eng.Load(strings.Split(os.Args[2], ",")); err != nil {
+			fmt.Println(err)
+			os.Exit(2)
+		}
+		var ks []string
+		for k, c := range eng.contracts {
+			if c.Kind == "func" {
+				ks = append(ks, k)
+			}
+		}
+		sort.Strings(ks)
+		for _, k := range ks {
+			fn := eng.funcs[k]
+			if fn == nil {
+				continue
+			}
+			var ns []string
+			for _, p := range fn.Params {
+				n := p.Name()
+				if n == "" || n == "_" {
+					n = "_"
+				}
+				ns = append(ns, n)
+			}
+			var fv []string
+			for _, v := range fn.FreeVars {
+				fv = append(fv, v.Name())
+			}
+			fmt.Printf("%s\t%s\t%s\t%s\n", eng.contracts[k].File, eng.contracts[k].Key, strings.Join(ns, " "), strings.Join(fv, " "))
+		}
 	case "writers":
 		// govc writers <pkgs> <type substring>: which functions store to which fields (developer aid for frame scans)
 		eng := NewEngine("/repo")
